@@ -345,6 +345,8 @@ func generateStreamUpstream(upstream conf_v1.TransportServerUpstream, upstreamNa
 }
 
 func generateLoadBalancingMethod(method string) string {
+	// validation accepts the method with surrounding white space
+	method = strings.TrimSpace(method)
 	if method == "" {
 		// By default, if unspecified, Nginx uses the 'round_robin' load balancing method.
 		// We override this default which suits the Ingress Controller better.
